@@ -4,6 +4,8 @@ from vlib import rnd_u64, U64
 from props.codec_common import CODEC_TRUSTED, split_out
 
 THEOREMS = ["C08_update_exact", "C08_update_total", "C08_frame", "C08_code_structure", "C08_code_structure_wf", "C08_tie_hop_count"]
+REPEAT = 2            # case lines repeated 66 000 times on one thread (state that builds up over many calls)
+REPEAT_CMDS = ('OPS',)
 RELEASE = True
 OFFSET = 946684800000
 RULE = ("OPS <clock> <bundle> ; UPD <node> <residence>: every (limit, count) pair of the hop-count block (65 536, exhaustive) and the "
@@ -30,8 +32,14 @@ def _bundle(hop=None, age=None, prev=True, t=1000, life=3600000, extra_first=Fal
         cs.append(dict(type=7, num=n, flags=bflags[1], crc=("N",), data=("AGE", age)))
         n -= 1
     if prev:
-        cs.append(dict(type=6, num=n, flags=bflags[2], crc=("N",), data=("PREV", ("DTN", 1, b"//old/"))))
+        # the node named so far: some other node, or the given node's name in another letter case (it must still be REPLACED by the name given)
+        old = prev if isinstance(prev, tuple) else ("DTN", 1, b"//old/")
+        cs.append(dict(type=6, num=n, flags=bflags[2], crc=("N",), data=("PREV", old)))
         n -= 1
+    if extra_first:
+        # a block that fails its own validation (payload-typed, but not numbered 1) in front of the blocks to update: it is skipped by
+        # the type lookup, the blocks behind it are found and updated all the same
+        cs.insert(0, dict(type=1, num=9, flags=0, crc=("N",), data=("DATA", b"not the payload")))
     cs.append(dict(type=1, num=1, flags=0, crc=("N",), data=("DATA", b"p")))
     if crcs is not None:
         # stored CRC states (a decoded bundle carries calculated values): the update changes block DATA only, never a CRC type or value
@@ -105,7 +113,10 @@ def cases(rng, tier):
         hop = rng.choice([None, None, (32, 1), (rng.randrange(256), rng.randrange(256)), (255, 254), (255, 255), (0, 0)])
         # the given node is written into the previous-node block AS GIVEN: node IDs, endpoint IDs with a service part, dtn:none
         node = rng.choice([NODE, ("IPN", 2, 23, 0), ("NONE", 1, 0), ("DTN", 1, b"//here/svc"), ("IPN", 2, 23, 42), ("DTN", 1, "//kö/~grp/x".encode())])
-        out.append(_line(_bundle(hop=hop, age=age, prev=rng.random() < 0.6, t=t, life=L, seq=rng.choice([0, 0, 1, 40, U64 - 1, rnd_u64(rng)]),
+        pv = rng.random() < 0.6
+        if pv and rng.random() < 0.3:
+            pv = rng.choice([("DTN", 1, b"//HERE/"), ("DTN", 1, b"//Here/svc"), ("DTN", 1, b"//here/"), ("IPN", 2, 23, 0), ("NONE", 1, 0)])
+        out.append(_line(_bundle(hop=hop, age=age, prev=pv, extra_first=rng.random() < 0.1, t=t, life=L, seq=rng.choice([0, 0, 1, 40, U64 - 1, rnd_u64(rng)]),
                                  bflags=tuple(rng.choice([0, 0, 0, 1, 4, 16, 0xF0, 0xFF, 8, rng.randrange(256)]) for _ in range(3)),
                                  crcs=None if rng.random() < 0.5 else [rng.choice(CRC_STATES) for _ in range(5)]), now, node, rt,
                          lifens=rng.choice([None, None, None, 1, 999999, rng.randrange(1000000)])))
